@@ -16,7 +16,7 @@ pub fn addr_of(t: &Term) -> Option<IpAddr> {
     if l.len() != 2 {
         return None;
     }
-    let n: u128 = l[1].as_atom()?.parse().ok()?;
+    let n: u128 = nat_of(&l[1])?;
     match l[0].as_atom()? {
         "4" => {
             if n > u32::MAX as u128 {
@@ -50,16 +50,29 @@ pub fn nh_of(a: IpAddr) -> bgp::Nexthop {
         IpAddr::V6(a) => bgp::Nexthop::V6(a),
     }
 }
+/// a number is digits only, as the Lean codec reads it (`str::parse` would also take a leading `+`)
+pub fn nat_of(t: &Term) -> Option<u128> {
+    let a = t.as_atom()?;
+    if a.is_empty() || !a.bytes().all(|b| b.is_ascii_digit()) {
+        return None;
+    }
+    a.parse().ok()
+}
 pub fn u32_of(t: &Term) -> Option<u32> {
-    let v = t.as_u64()?;
-    if v > u32::MAX as u64 { None } else { Some(v as u32) }
+    let v = nat_of(t)?;
+    if v > u32::MAX as u128 { None } else { Some(v as u32) }
 }
 pub fn u8_of(t: &Term) -> Option<u8> {
-    let v = t.as_u64()?;
+    let v = nat_of(t)?;
     if v > 255 { None } else { Some(v as u8) }
 }
 pub fn i64_of(t: &Term) -> Option<i64> {
-    t.as_atom()?.parse::<i64>().ok()
+    let a = t.as_atom()?;
+    let d = a.strip_prefix('-').unwrap_or(a);
+    if d.is_empty() || !d.bytes().all(|b| b.is_ascii_digit()) {
+        return None;
+    }
+    a.parse::<i64>().ok()
 }
 pub fn name_of(t: &Term) -> Option<String> {
     Some(t.as_atom()?.to_string())
@@ -799,7 +812,7 @@ pub fn cond_of(t: &Term) -> Option<ConditionConfig> {
                 if p.len() != 2 {
                     return None;
                 }
-                let afi = p[0].as_u64()?;
+                let afi = nat_of(&p[0])? as u64;
                 if afi > 65535 {
                     return None;
                 }
